@@ -57,3 +57,23 @@ package pool
 //@             old(delta(&f.pool.bytesRemaining.remaining)) - delta(&f.pool.bytesRemaining.remaining) == f.size - old(f.size)
 //@   ensures never-shrinks: f.size >= old(f.size)
 //@   ensures covers-written: r0 > 0 ==> f.size >= off + r0
+
+// ---------------------------------------------------------------------------
+// Block-device-backed files: position in the file and position on the device
+// advance in lockstep while new sectors are filled; padding around the written
+// bytes comes from the hole source at the position of the very sector being
+// written, so regions never written read back as the hole source's contents
+// (C15).
+//@ func (*blockDeviceBackedFile).writeToNewSectors
+//@   props C15
+//@   requires 0 <= offsetWithinSector && offsetWithinSector < f.fp.sectorSizeBytes && f.fp.sectorSizeBytes > 0 && f.fp.sectorSizeBytes <= 1048576
+//@   requires 0 <= firstSectorIndex && firstSectorIndex < 1000000000000 && len(p) > 0
+//@   at call AllocateContiguous#1 assume_post r2 == nil ==> r1 >= 1 && r1 <= arg1 && r0 >= 1 && r0 + r1 <= MaxUint32 -- the sector allocator hands out between one and the requested number of existing sectors (numbers fit in 32 bits)
+//@   at call readFromHoleSource#1 assert leading-padding-of-the-first-sector: arg2 == firstSectorIndex && arg3 == 0 && len(arg1) == offsetWithinSector
+//@   at call readFromHoleSource#2 assert trailing-padding-of-the-first-sector: arg2 == firstSectorIndex && arg3 == offsetWithinSector + len(p) && len(arg1) == f.fp.sectorSizeBytes - arg3
+//@   at call readFromHoleSource#3 assert trailing-padding-comes-from-the-sector-being-written:
+//@             arg2 - firstSectorIndex == sector - firstSector && arg3 == len(p) && len(arg1) == f.fp.sectorSizeBytes - len(p)
+//@   at call WriteAt#1 assert first-sector-goes-to-the-first-allocated-sector: sector == firstSector && sectorIndex == firstSectorIndex && len(arg1) == f.fp.sectorSizeBytes
+//@   at call WriteAt#2 assert device-and-file-position-in-lockstep: sector - firstSector == sectorIndex - firstSectorIndex
+//@   at call WriteAt#3 assert device-and-file-position-in-lockstep: sector - firstSector == sectorIndex - firstSectorIndex && len(arg1) == f.fp.sectorSizeBytes
+//@   ensures writes-no-more-than-was-allocated: r3 == nil ==> r0 >= 1 && r0 <= old(len(p)) && r0 <= r2 * f.fp.sectorSizeBytes - offsetWithinSector
